@@ -280,6 +280,18 @@ class Verifier:
                                ast.unparse(when) if when is not None
                                else 'True'), exc.line,
                            c.clause_prop.get(('raises', name), c.properties))
+                lam = c.raises_msg.get(name)
+                if lam is not None:
+                    if exc.args and isinstance(exc.args[0], VStr):
+                        msg = exc.args[0]
+                    else:
+                        msg = VStr(fresh('nomsg', so.S))
+                    v = eng.eval_clause_lambda(lam, [msg], st)
+                    eng.oblige(st, eng.truth(v, st),
+                               '%s::raises_msg:%s' % (fn.qual, name), 'post',
+                               'message of %s raised at line %d: %s' % (
+                                   exc.cls, exc.line, ast.unparse(lam)[:120]),
+                               exc.line, c.properties)
                 self.check_frame(fn, c, entry, env, st)
                 return
         g = '%s::escape:%s' % (fn.qual, exc.cls)
